@@ -87,7 +87,7 @@ PROPS = {
         "assumptions": ["signature correctness (SigCorrect) for ECDSA / Ed25519: assumed in the theorem, cross-checked by the Lean EC reference in the run"],
     },
     "C02": {
-        "modules": ["Cose.Props.C02", "Cose.Props.History", "Cose.Props.C01Sign"], "families": ["msg:C02", "conv"], "spec_ops": ["conv.keyset", "conv.ed25519", "conv.ecdsa", "conv.ecdh", "conv.gen"],
+        "modules": ["Cose.Props.C02", "Cose.Props.Authd", "Cose.Props.History", "Cose.Props.C01Sign"], "families": ["msg:C02", "conv"], "spec_ops": ["conv.keyset", "conv.ed25519", "conv.ecdsa", "conv.ecdh", "conv.gen"],
         "extras": [{"name": "race", "pkg": "./race", "build_flags": ["-race"], "args": ["-seed", "{seed}", "-n", "{n}", "-only", "Mac0/,Sign1/"],
                     "n_quick": 30, "n_thorough": 400, "timeout": 3000}],
         "n_quick": 400, "n_thorough": 50000,
@@ -97,7 +97,7 @@ PROPS = {
         "assumptions": ["existential unforgeability of the primitives is assumed; the theorems reduce acceptance of a changed authenticated item to a forgery"],
     },
     "C03": {
-        "modules": ["Cose.Props.C03", "Cose.Props.History"], "families": ["msg:C03", "prim:aead", "msg:C06"], "spec_ops": [],
+        "modules": ["Cose.Props.C03", "Cose.Props.Authd", "Cose.Props.History"], "families": ["msg:C03", "prim:aead", "msg:C06"], "spec_ops": [],
         "extras": [{"name": "race", "pkg": "./race", "build_flags": ["-race"], "args": ["-seed", "{seed}", "-n", "{n}", "-only", "Encrypt0/,decrypt-shared-input"],
                     "n_quick": 30, "n_thorough": 400, "timeout": 3000}],
         "n_quick": 400, "n_thorough": 50000,
@@ -107,7 +107,7 @@ PROPS = {
         "assumptions": ["AEAD security assumed; uniqueness theorems (C12) reduce an accepted change to a tag forgery"],
     },
     "C04": {
-        "modules": ["Cose.Props.C04", "Cose.Props.History", "Cose.Props.KdfRoundtrip"], "families": ["msg:C04", "kdf"], "spec_ops": ["msg.consume", "msg.produce", "kdf.enc"],
+        "modules": ["Cose.Props.C04", "Cose.Props.Authd", "Cose.Props.History", "Cose.Props.KdfRoundtrip"], "families": ["msg:C04", "kdf"], "spec_ops": ["msg.consume", "msg.produce", "kdf.enc"],
         "extras": [{"name": "race", "pkg": "./race", "build_flags": ["-race"], "args": ["-seed", "{seed}", "-n", "{n}", "-only", "Mac0/,Sign1/,Encrypt0/"],
                     "n_quick": 30, "n_thorough": 400, "timeout": 3000}],
         "n_quick": 400, "n_thorough": 40000,
